@@ -138,6 +138,7 @@ func runCase(c Case) (nt bool, classes []string, err error) {
 			return struct{ N int }{sh / 3}
 		}
 	}
+	cancelAll := func() {}
 	f.Many = func(ctx context.Context, args []interface{}) ([]interface{}, error) {
 		mu.Lock()
 		k := len(invs)
@@ -171,12 +172,19 @@ func runCase(c Case) (nt bool, classes []string, err error) {
 			panic(struct{ What string }{fmt.Sprintf("boom-%d", k)})
 		case "panic-int":
 			panic(7000 + k)
-		case "short":
+		case "short", "short-cancelled":
+			if outcome == "short-cancelled" {
+				// the batch function gives up early because its context ended meanwhile
+				cancelAll()
+			}
 			if len(res) > 0 {
 				return res[:len(res)-1], nil
 			}
 			return []interface{}{nil}, nil
-		case "long":
+		case "long", "long-cancelled":
+			if outcome == "long-cancelled" {
+				cancelAll()
+			}
 			return append(res, nil), nil
 		case "slow":
 			time.Sleep(1500 * time.Microsecond)
@@ -198,6 +206,7 @@ func runCase(c Case) (nt bool, classes []string, err error) {
 		shared, cancelShared = context.WithCancel(batch.WithBatching(base))
 	}
 	defer cancelShared()
+	cancelAll = cancelShared
 	anyCancel := c.SharedCancelUs > 0
 	results := make([]result, len(c.Callers))
 	var wg sync.WaitGroup
@@ -306,6 +315,11 @@ func runCase(c Case) (nt bool, classes []string, err error) {
 			rollover = true
 		}
 	}
+	for _, inv := range invs {
+		if strings.HasSuffix(inv.outcome, "-cancelled") {
+			anyCancel = true
+		}
+	}
 	for i, r := range results {
 		ks := where[i]
 		if len(ks) > 1 {
@@ -376,6 +390,11 @@ func runCase(c Case) (nt bool, classes []string, err error) {
 			if !strings.Contains(r.err.Error(), "incorrect number of results") {
 				return false, nil, fmt.Errorf("caller %d: got %q, want a wrong-result-count error", i, r.err)
 			}
+		case "short-cancelled", "long-cancelled":
+			// every context is cancelled by then: the wrong count or the cancellation
+			if !strings.Contains(r.err.Error(), "incorrect number of results") && !isCtx {
+				return false, nil, fmt.Errorf("caller %d: got %q, want a wrong-result-count error or its context's error", i, r.err)
+			}
 		default:
 			return false, nil, fmt.Errorf("caller %d: got error %q although invocation %d (args %v) succeeded", i, r.err, ks[0], inv.args)
 		}
@@ -406,7 +425,7 @@ func genCase(t *rapid.T) Case {
 		Limit:           rapid.SampledFrom([]int{0, 0, 1, 2, 5}).Draw(t, "limit"),
 	}
 	c.MaxSize = rapid.SampledFrom([]int{0, 0, 1, 2, 3, 5, n}).Draw(t, "maxsize")
-	c.Plan = rapid.SliceOfN(rapid.SampledFrom([]string{"ok", "ok", "ok", "error", "error-full", "error-partial", "panic", "panic-error", "panic-struct", "panic-int", "short", "long", "slow"}), 0, 6).Draw(t, "plan")
+	c.Plan = rapid.SliceOfN(rapid.SampledFrom([]string{"ok", "ok", "ok", "error", "error-full", "error-partial", "panic", "panic-error", "panic-struct", "panic-int", "short", "long", "slow", "short-cancelled", "long-cancelled"}), 0, 6).Draw(t, "plan")
 	burst := rapid.Bool().Draw(t, "burst")
 	cancels := rapid.IntRange(0, 3).Draw(t, "cancelrate")
 	for i := 0; i < n; i++ {
